@@ -123,14 +123,36 @@ def parse_variant(text, via_path, bom, want=None):
     global TMP
     if TMP is None:
         TMP = tempfile.mkdtemp(prefix="vmon-c06-")
-    p = os.path.join(TMP, "c.chart")
+    # the path is the caller's: a str (as in the README), a pathlib.Path (as annotated) or any os.PathLike; plain or non-ASCII
+    # file names; directly in the directory or reached through a symbolic link
+    k = len(text) % 6
+    name = ("c.chart", "ca\u00f1\u00f3n \u4e16\u754c.chart", "notes (1) [final].chart")[k % 3]
+    import sys
+
+    if sys.getfilesystemencoding().lower().replace("-", "") != "utf8":
+        name = name.encode("ascii", "replace").decode("ascii").replace("?", "_")  # (an ASCII locale cannot even name such a file)
+    p = os.path.join(TMP, name)
     with open(p, "wb") as f:
         f.write((b"\xef\xbb\xbf" if bom else b"") + text.encode("utf-8"))
+    if k == 4:
+        link = os.path.join(TMP, "link.chart")
+        if os.path.lexists(link):
+            os.unlink(link)
+        os.symlink(p, link)
+        p = link
     env.LOG.drain()
     try:
         import pathlib
 
-        c = harness.Chart.from_filepath(pathlib.Path(p)) if want is None else harness.Chart.from_filepath(pathlib.Path(p), want_tracks=want)
+        class _PL:
+            def __init__(self, s_):
+                self.s = s_
+
+            def __fspath__(self):
+                return self.s
+
+        arg = (pathlib.Path(p), p, _PL(p))[k // 2]
+        c = harness.Chart.from_filepath(arg) if want is None else harness.Chart.from_filepath(arg, want_tracks=want)
         return harness.Outcome(c, None, env.LOG.drain())
     except Exception as e:  # noqa
         return harness.Outcome(None, e, env.LOG.drain())
